@@ -61,10 +61,11 @@ def eval_case(job):
     from . import impl
     res = {'id': case['id']}
     try:
-        o = surface.Oracle(case)
+        ocase = case.get('explicit', case)        # predicate-form cases carry their explicit twin
+        o = surface.Oracle(ocase)
         res['spec'] = [surface.render_row(r) for r in o.rows()]
-        res['dom_sizes'] = {v[0]: len(o.dom(v[0])) for v in case['vars']}
-        res['raw_sizes'] = {v[0]: len(v[2]) for v in case['vars']}
+        res['dom_sizes'] = {v[0]: len(o.dom(v[0])) for v in ocase['vars']}
+        res['raw_sizes'] = {v[0]: len(v[2]) for v in ocase['vars']}
     except Exception as e:  # the oracle raised: the case is malformed for the decisive stream
         res['spec_exc'] = f'{type(e).__name__}: {e}'
         return res
@@ -134,7 +135,7 @@ def run_query_cases(report, cases, opts, judge):
     for c, r in zip(cases, results):
         if 'spec_exc' in r:
             report.count('skipped_oracle_raises')
-    lines = run_driver([surface.case_sexp(c) for c, _ in good]) if good else []
+    lines = run_driver([surface.case_sexp(c.get('explicit', c)) for c, _ in good]) if good else []
     for (case, res), line in zip(good, lines):
         drv = parse_driver_line(line)
         report.evaluations += 1
